@@ -497,8 +497,8 @@ fn c05_iterate(iter_seed: u64, rep: &mut ShardReport) {
         chaos: 3,
         focus: 6,
         director: 8,
-        focus_classes: &[Class::Wait, Class::Dep, Class::Abort, Class::Finality, Class::Commit, Class::Cursor],
-        directors: obs::D_COORD | obs::D_WAIT | obs::D_COMMIT_HEAD | obs::D_CLAIM_LOCK | obs::D_FINISH_AT_HEAD | obs::D_AFTER_NOTIFY,
+        focus_classes: &[Class::Wait, Class::Dep, Class::Abort, Class::Finality, Class::Commit, Class::Cursor, Class::ExecPublish, Class::Mv],
+        directors: obs::D_COORD | obs::D_WAIT | obs::D_COMMIT_HEAD | obs::D_CLAIM_LOCK | obs::D_FINISH_AT_HEAD | obs::D_AFTER_NOTIFY | obs::D_EXEC_PUBLISH | obs::D_ESTIMATE_REWIND | obs::D_GATE,
     };
     {
         let mut ir = Rng::new(iter_seed);
